@@ -44,6 +44,7 @@ Extracted (every other shape fails closed):
                   __setstate__) where __getstate__ stored `"k": self.A` (also tuple()/list()/dict()/copy of it, or a copy of
                   `self.__dict__` from which A was not removed)
       ARecreated  `self.A = <expr>` with the expression __init__ uses, which mentions neither the state nor a parameter
+                  (only for an attribute no other method of the class assigns or updates)
       ARebuilt ks `self.A = [ModelFunction(**d) for d in state["k"]]` where __getstate__ stored one dict literal per
                   element of self.A whose keys ks are constructor arguments of ModelFunction
       AMissing    not set by __setstate__ (or its key is not in the state)
@@ -659,6 +660,30 @@ def _hook_row(cls: ast.ClassDef, ancestors=()):
         init_params |= set(params_of(fn))
     gtab = _getstate_table(gs)
     restored: dict = {}
+    # attributes some OTHER method of the class (or of a scanned ancestor) assigns or updates: they carry state of
+    # their own, so setting them again to what __init__ sets is not a restoration
+    stateful: set = set()
+    for c in chain:
+        for fn in c.body:
+            if isinstance(fn, (ast.FunctionDef, ast.AsyncFunctionDef)) and fn.name not in ("__init__", "__setstate__", "__getstate__"):
+                for n in ast.walk(fn):
+                    tgts = []
+                    if isinstance(n, ast.Assign):
+                        tgts = n.targets
+                    elif isinstance(n, (ast.AnnAssign, ast.AugAssign)):
+                        tgts = [n.target]
+                    elif isinstance(n, ast.Delete):
+                        tgts = n.targets
+                    elif (isinstance(n, ast.Call) and isinstance(n.func, ast.Attribute)
+                          and n.func.attr in ("append", "extend", "update", "add", "pop", "clear", "insert", "remove",
+                                              "setdefault", "popitem")):
+                        tgts = [n.func.value]
+                    for t in tgts:
+                        for tt in (t.elts if isinstance(t, ast.Tuple) else [t]):
+                            while isinstance(tt, ast.Subscript):
+                                tt = tt.value
+                            if _self_attr(tt) is not None:
+                                stateful.add(_self_attr(tt))
 
     def from_state(attr: str, key: str):
         kind, tab, removed = gtab
@@ -714,6 +739,8 @@ def _hook_row(cls: ast.ClassDef, ancestors=()):
                 if state in names or names & init_params:
                     fail(st, "unknown way of restoring an attribute in __setstate__")
                 if a in init and any(x is not None and u(x) == u(val) for x in init[a]):
+                    if a in stateful:
+                        fail(st, f"{cls.name}.{a} is set again to its initial value although other methods change it")
                     restored[a] = "ARecreated"
                     continue
                 fail(st, "attribute set by __setstate__ to something __init__ does not set it to")
